@@ -9,7 +9,7 @@ from gv.model import dbutil
 
 ID = "C16"
 RULE = (
-    "Part 'merge' (shards = 13 criteria sets x blocks of multisets): every start-ordered multiset of <= 3 intervals over 6 positions "
+    "Part 'merge' (shards = 14 criteria sets x blocks of multisets): every start-ordered multiset of <= 3 intervals over 6 positions "
     "plus all 4-multisets over 4 positions (quick, 2738) / <= 5 intervals over 6 positions (thorough, 65779) x seqid/strand/type "
     "pattern {uniform, last differs in strand, type, seqid, a sequence name holding a comma (<= 2 members only)} x object history "
     "{fresh, previously merged under 'exact', merged twice, outputs re-merged, after children_bp calls}; criteria = default, 9 library "
@@ -56,6 +56,7 @@ CRITERIA = [
     ("any_thr2", lambda: [mc.seqid, mc.overlap_any_threshold(2)]),
     ("any_thr0", lambda: [mc.seqid, mc.overlap_any_threshold(0)]),
     ("start_thr1", lambda: [mc.seqid, mc.overlap_start_threshold(1)]),
+    ("start_thr3", lambda: [mc.seqid, mc.overlap_start_threshold(3)]),      # a threshold longer than the short features
     ("custom_two_max", lambda: [mc.seqid, mc.overlap_end_inclusive, two_max]),
     ("custom_falsy", lambda: [mc.seqid, overlap_falsy]),
     ("no_criteria", lambda: []),
@@ -73,6 +74,7 @@ REF = {
     "any_thr2": lambda a, b, s, e, n: a - 2 <= e + 1 <= b + 1 or a <= s <= b + 2,
     "any_thr0": lambda a, b, s, e, n: a <= e + 1 <= b + 1 or a <= s <= b,
     "start_thr1": lambda a, b, s, e, n: a - 1 <= e + 1 <= b + 1,
+    "start_thr3": lambda a, b, s, e, n: a - 3 <= e + 1 <= b + 1,
     "custom_two_max": lambda a, b, s, e, n: a <= s <= b + 1 and n < 2,
     "custom_falsy": lambda a, b, s, e, n: a <= s <= b + 1,
     "no_criteria": lambda a, b, s, e, n: True,         # nothing to object: everything joins the first run
